@@ -460,7 +460,15 @@ impl<'r> G<'r> {
                 let a = self.pos();
                 self.p.hints.push(Hint { file: self.cur, pos: a, label: format!("{}:", ci.targs[i].name), kind: "template-arg" });
                 let t = ci.targs[i].ty.clone();
-                self.value(&t, depth + 1, "template-arg-value");
+                let param_unused = !self.p.uses.iter().any(|u| u.decl == ci.targs[i].decl);
+                if param_unused && self.rng.chance(1, 3) {
+                    // an explicitly unset argument (only for a parameter nothing is computed from - llvm-tblgen wants
+                    // every initialiser of a def resolved): still the argument of parameter i
+                    self.put("?");
+                    self.p.features.push("template-arg:unset");
+                } else {
+                    self.value(&t, depth + 1, "template-arg-value");
+                }
                 arg_spans.push((a, self.pos(), t));
             }
             self.put(">");
